@@ -98,3 +98,14 @@ CHECKS.append({
     "level_note": _PY_NOTE,
 })
 NOT_APPLICABLE[:] = [n for n in NOT_APPLICABLE if n["property_id"] not in {c["id"] for c in CHECKS}]
+RUNNERS["C06"] = ("parity_check", "main", ())
+_RS_NOTE = ("Trusted base: z3 5.1.0; the rsym engine (engines/rsym: reader + symbolic interpreter for the LLVM IR rustc 1.95 emits for the real sc62015-core crate, "
+            "release profile, opt-level 1, fat LTO incl. the parts of std it uses; libc stubs listed in the evidence); the pysym engine for the Python side; "
+            "every counterexample is replayed concretely: unmodified Python core vs the natively compiled Rust harness.")
+CHECKS.append({
+    "id": "C06", "engine": "pysym+rsym", "level": "translation_validation", "design_ref": "DESIGN.md section 4 / C06",
+    "technique": "translation validation per encoding class: Python core executed by proxy objects and Rust core executed from its LLVM IR on the same z3 variables (registers, flags, operand bytes, one shared memory array); z3 decides equality of registers, C/Z, PC, low-power state, consumed length and whole-memory extensionality for every pair of compatible paths",
+    "level_text": "For every (prefix, opcode, length) class the real Emulator.execute_instruction (Python) and the real LlamaExecutor::execute (Rust, from rustc's LLVM IR) run on shared symbolic state; each Python path is paired with the Rust paths explored under its path condition and z3 decides equality of BA,I,X,Y,U,S,PC,C,Z, halted/off, returned length and memory (a fresh symbolic address). Bounded: valid encodings, I<=2/3, the documented operand domain of C04 (quick) plus the full domain in the thorough tier.",
+    "level_note": _RS_NOTE,
+})
+NOT_APPLICABLE[:] = [n for n in NOT_APPLICABLE if n["property_id"] not in {c["id"] for c in CHECKS}]
